@@ -11,9 +11,18 @@ Emitted
                                           the returned gate tuple (name, targets, arg_value) of each method, over
                                           Var 0..3 = (alpha, theta, beta, global_phase_angle) as unpacked from _angles_for_ZYZ
   sq_methods     : list (string * list (string * list nat * option ex))   the method dictionary
-The statements of _angles_for_ZYZ that compute the primitives' ARGUMENTS (normalisation by sqrt(det), conjugated
-entries) are not translated: their source text must equal the text the hand model Model/SingleQubit.v mirrors,
-otherwise the translator refuses (Broken) - fail closed.
+
+How source is read (tolerant to behaviour-preserving refactorings, still fail-closed):
+  * every function body must be straight-line code of assignments of PURE expressions (numbers, np.pi, + - * /, unary -,
+    constant subscripts, and calls of a fixed white-list of numpy/cmath functions) - anything else is refused;
+  * each assignment is turned into an expression TREE with all earlier locals (and module-level constants such as
+    `_HALF_PI = np.pi / 2`) inlined, so renaming locals, extracting a sub-expression into a temporary or inlining one
+    does not change the trees;
+  * `c * x` / `x * c` with 1/c an integer (0.5 * x) is the same tree as `x / (1/c)` (identical IEEE result: scaling by a
+    power of two; the Coq side is over the reals anyway);
+  * the four primitives are recognised by comparing TREES with the trees of the reference statements REF below - the
+    five statements of _angles_for_ZYZ that prepare the arguments of phase/sqrt/arctan2, which the hand model
+    Model/SingleQubit.v [prims] mirrors.  Any call whose tree is not one of the four primitives is refused.
 """
 import ast
 import os
@@ -21,9 +30,35 @@ import sys
 from fractions import Fraction
 
 sys.path.insert(0, os.path.dirname(os.path.dirname(os.path.abspath(__file__))))
-from common import Broken, PKG, COQ, write_if_changed  # noqa: E402
+import common  # noqa: E402
+from common import Broken, PKG, write_if_changed  # noqa: E402
 
 SRC_FILE = "decompose/decompose_single_qubit_gate.py"
+
+# what Model/SingleQubit.v [prims] mirrors
+REF = '''
+def _ref(input_gate):
+    input_array = input_gate.full()
+    normalization_constant = np.sqrt(np.linalg.det(input_array))
+    input_array = input_array * (1 / normalization_constant)
+    a_negative = np.real(input_array[0][0]) - 1j * np.imag(input_array[0][0])
+    b_negative = np.real(input_array[0][1]) - 1j * np.imag(input_array[0][1])
+    return (cmath.phase(a_negative), cmath.phase(b_negative),
+            np.arctan2(np.absolute(b_negative), np.absolute(a_negative)),
+            cmath.phase(1 / normalization_constant))
+'''
+
+# pure functions that may occur (canonical name by alias)
+PURE_CALLS = {
+    "np.sqrt": "sqrt", "numpy.sqrt": "sqrt",
+    "np.linalg.det": "det", "numpy.linalg.det": "det",
+    "np.real": "real", "numpy.real": "real", "np.imag": "imag", "numpy.imag": "imag",
+    "np.absolute": "abs", "numpy.absolute": "abs", "np.abs": "abs", "numpy.abs": "abs",
+    "np.arctan2": "arctan2", "numpy.arctan2": "arctan2",
+    "cmath.phase": "phase",
+}
+ANGLES = ("angles_for_ZYZ",)   # the tree of the call _angles_for_ZYZ(input_gate)
+ARG = ("arg",)                 # the function argument input_gate
 
 
 class Refuse(Exception):
@@ -36,51 +71,94 @@ def q(x):
     return f"(({n}) # {d})" if n < 0 else f"({n} # {d})"
 
 
-# the statements of _angles_for_ZYZ the hand model mirrors (normalised through ast.unparse)
-FIXED = {
-    "input_array#0": "input_gate.full()",
-    "normalization_constant": "np.sqrt(np.linalg.det(input_array))",
-    "input_array#1": "input_array * (1 / normalization_constant)",
-    "a_negative": "np.real(input_array[0][0]) - 1j * np.imag(input_array[0][0])",
-    "b_negative": "np.real(input_array[0][1]) - 1j * np.imag(input_array[0][1])",
-}
-PRIMS = {
-    "cmath.phase(a_negative)": "Var 0",
-    "cmath.phase(b_negative)": "Var 1",
-    "np.arctan2(np.absolute(b_negative), np.absolute(a_negative))": "Var 2",
-    "cmath.phase(1 / normalization_constant)": "Var 3",
-}
+def _num(v):
+    if isinstance(v, bool):
+        raise Refuse("bool constant")
+    if isinstance(v, (int, float)):
+        if isinstance(v, float) and (v != v or v in (float("inf"), float("-inf"))):
+            raise Refuse("non-finite constant")
+        return ("num", Fraction(v))
+    if isinstance(v, complex) and v.real == 0:
+        return ("imag", Fraction(v.imag))
+    raise Refuse(f"constant {v!r}")
 
 
-def ex(n, env, prims=None):
-    """scalar expression -> (coq text, python closure text is not needed: the harness evaluates the Coq term)"""
-    if prims is not None and isinstance(n, ast.Call):
-        key = ast.unparse(n)
-        if key in prims:
-            return prims[key]
-        raise Refuse(f"unknown primitive call {key}")
+def _mul(a, b):
+    """canonical product: scaling by the reciprocal of an integer is a division"""
+    for c, x in ((a, b), (b, a)):
+        if c[0] == "num" and c[1] != 0 and c[1].numerator in (1, -1) and c[1].denominator != 1:
+            k = Fraction(1) / c[1]
+            return ("div", x, ("num", k))
+    return ("mul", a, b)
+
+
+def tree(n, env):
+    """pure expression -> canonical tree with locals / module constants inlined"""
     if isinstance(n, ast.Constant):
-        v = n.value
-        if isinstance(v, bool) or not isinstance(v, (int, float)):
-            raise Refuse(f"constant {v!r}")
-        return f"Num {q(v)}"
+        return _num(n.value)
     if isinstance(n, ast.Name):
         if n.id in env:
             return env[n.id]
         raise Refuse(f"unbound name {n.id}")
     if isinstance(n, ast.Attribute):
-        if ast.unparse(n) in ("np.pi", "numpy.pi", "math.pi"):
-            return "Pi"
+        if ast.unparse(n) in ("np.pi", "numpy.pi", "math.pi", "cmath.pi"):
+            return ("pi",)
         raise Refuse(f"attribute {ast.unparse(n)}")
-    if isinstance(n, ast.UnaryOp) and isinstance(n.op, ast.USub):
-        return f"Neg ({ex(n.operand, env, prims)})"
+    if isinstance(n, ast.UnaryOp):
+        if isinstance(n.op, ast.USub):
+            return ("neg", tree(n.operand, env))
+        if isinstance(n.op, ast.UAdd):
+            return tree(n.operand, env)
+        raise Refuse(f"unary {type(n.op).__name__}")
     if isinstance(n, ast.BinOp):
-        ops = {ast.Add: "Add", ast.Sub: "Sub", ast.Mult: "Mul", ast.Div: "Div"}
-        for k, v in ops.items():
-            if isinstance(n.op, k):
-                return f"{v} ({ex(n.left, env, prims)}) ({ex(n.right, env, prims)})"
+        a, b = tree(n.left, env), tree(n.right, env)
+        if isinstance(n.op, ast.Add):
+            return ("add", a, b)
+        if isinstance(n.op, ast.Sub):
+            return ("sub", a, b)
+        if isinstance(n.op, ast.Mult):
+            return _mul(a, b)
+        if isinstance(n.op, ast.Div):
+            return ("div", a, b)
         raise Refuse(f"operator {type(n.op).__name__}")
+    if isinstance(n, ast.Subscript):
+        base = tree(n.value, env)
+        sl = n.slice
+        idxs = sl.elts if isinstance(sl, ast.Tuple) else [sl]
+        for i in idxs:
+            if not (isinstance(i, ast.Constant) and isinstance(i.value, int) and not isinstance(i.value, bool) and i.value >= 0):
+                raise Refuse(f"subscript {ast.unparse(n)}")
+            base = ("idx", base, i.value)
+        return base
+    if isinstance(n, ast.Call):
+        if n.keywords:
+            raise Refuse(f"keyword arguments in {ast.unparse(n)[:60]}")
+        f = n.func
+        fname = ast.unparse(f)
+        if fname in PURE_CALLS and fname.split(".")[0] not in env:
+            return ("call", PURE_CALLS[fname]) + tuple(tree(a, env) for a in n.args)
+        if fname == "_angles_for_ZYZ" and len(n.args) == 1 and tree(n.args[0], env) == ARG and fname not in env:
+            return ANGLES
+        if isinstance(f, ast.Attribute) and f.attr == "full" and not n.args:
+            return ("full", tree(f.value, env))
+        raise Refuse(f"call {fname}")
     raise Refuse(f"expression {ast.dump(n)[:80]}")
+
+
+def to_ex(t, prims):
+    """tree -> Coq text of Found.Sym.ex; `prims` maps primitive trees to variables"""
+    if t in prims:
+        return prims[t]
+    k = t[0]
+    if k == "num":
+        return f"Num {q(t[1])}"
+    if k == "pi":
+        return "Pi"
+    if k == "neg":
+        return f"Neg ({to_ex(t[1], prims)})"
+    if k in ("add", "sub", "mul", "div"):
+        return f"{k.capitalize()} ({to_ex(t[1], prims)}) ({to_ex(t[2], prims)})"
+    raise Refuse(f"not an angle expression over the primitives: {str(t)[:120]}")
 
 
 def strip_doc(body):
@@ -89,119 +167,170 @@ def strip_doc(body):
     return body
 
 
-def tr_angles(fd):
-    if [a.arg for a in fd.args.args] != ["input_gate"]:
-        raise Refuse("signature")
-    env = {}
-    seen_input = 0
-    stmts = []
-    for st in strip_doc(fd.body):
-        if isinstance(st, ast.With):  # warnings.catch_warnings(): only silences warnings
+def flatten(body):
+    """straight-line statements; `with warnings.catch_warnings():` blocks (which only silence warnings) are opened"""
+    out = []
+    for st in body:
+        if isinstance(st, ast.With):
             items = [ast.unparse(i.context_expr) for i in st.items]
-            if items != ["warnings.catch_warnings()"]:
+            if items != ["warnings.catch_warnings()"] or any(i.optional_vars is not None for i in st.items):
                 raise Refuse(f"with {items}")
-            for s2 in st.body:
-                if isinstance(s2, ast.Expr) and ast.unparse(s2.value).startswith("warnings.simplefilter("):
-                    continue
-                stmts.append(s2)
+            out += flatten(st.body)
+        elif isinstance(st, ast.Expr) and ast.unparse(st.value).startswith("warnings.simplefilter("):
+            continue
+        elif isinstance(st, ast.Pass):
+            continue
         else:
-            stmts.append(st)
-    fixed_seen = set()
+            out.append(st)
+    return out
+
+
+def run_assignments(stmts, env, on_other=None):
+    """bind names sequentially; returns the Return node"""
     ret = None
     for st in stmts:
-        if isinstance(st, ast.Return):
-            if not isinstance(st.value, ast.Tuple) or len(st.value.elts) != 4:
-                raise Refuse("return is not a 4-tuple")
-            ret = [ex(e, env, PRIMS) for e in st.value.elts]
-            continue
         if ret is not None:
             raise Refuse("statement after return")
-        if not (isinstance(st, ast.Assign) and len(st.targets) == 1 and isinstance(st.targets[0], ast.Name)):
-            raise Refuse(f"statement {ast.unparse(st)[:60]}")
-        name = st.targets[0].id
-        rhs = ast.unparse(st.value)
-        key = name
-        if name == "input_array":
-            key = f"input_array#{seen_input}"
-            seen_input += 1
-        if key in FIXED:
-            if rhs != FIXED[key]:
-                raise Refuse(f"{name} = {rhs}  (the hand model mirrors: {FIXED[key]})")
-            if key == "input_array#1" and "normalization_constant" not in fixed_seen:
-                raise Refuse("normalisation order")
-            if key in ("a_negative", "b_negative") and "input_array#1" not in fixed_seen:
-                raise Refuse("entries taken before normalisation")
-            fixed_seen.add(key)
+        if isinstance(st, ast.Return):
+            ret = st
             continue
-        if name in FIXED or name.startswith("input_array"):
-            raise Refuse(f"unexpected re-assignment of {name}")
-        env[name] = "(" + ex(st.value, env, PRIMS) + ")"
-    if fixed_seen != set(FIXED):
-        raise Refuse(f"missing statements {sorted(set(FIXED) - fixed_seen)}")
-    if ret is None:
-        raise Refuse("no return")
-    return ret
-
-
-def tr_method(fd):
-    """-> list of (name, targets, arg ex or None)"""
-    if [a.arg for a in fd.args.args] != ["input_gate"]:
-        raise Refuse("signature")
-    env = {}
-    gates = {}
-    ret = None
-    checked = False
-    for st in strip_doc(fd.body):
-        src = ast.unparse(st)
-        if isinstance(st, ast.Expr):
-            if src == "check_gate(input_gate, num_qubits=1)":
-                checked = True
+        if isinstance(st, ast.Assign) and len(st.targets) == 1:
+            tgt = st.targets[0]
+            if isinstance(tgt, ast.Name):
+                if on_other is not None and on_other(tgt.id, st.value, env):
+                    continue
+                env[tgt.id] = tree(st.value, env)
                 continue
-            raise Refuse(f"expression statement {src[:60]}")
-        if isinstance(st, ast.Return):
-            if not isinstance(st.value, ast.Tuple) or not all(isinstance(e, ast.Name) for e in st.value.elts):
-                raise Refuse("return is not a tuple of names")
-            try:
-                ret = [gates[e.id] for e in st.value.elts]
-            except KeyError as e:
-                raise Refuse(f"returned name {e} is not a Gate")
-            continue
-        if ret is not None:
-            raise Refuse("statement after return")
-        if not (isinstance(st, ast.Assign) and len(st.targets) == 1):
-            raise Refuse(f"statement {src[:60]}")
-        tgt = st.targets[0]
-        if isinstance(tgt, ast.Tuple):
-            if ast.unparse(st.value) != "_angles_for_ZYZ(input_gate)" or len(tgt.elts) != 4:
-                raise Refuse(f"tuple assignment {src[:80]}")
-            for j, e in enumerate(tgt.elts):
-                if not isinstance(e, ast.Name):
-                    raise Refuse("tuple target")
-                env[e.id] = f"Var {j}"
-            continue
-        if not isinstance(tgt, ast.Name):
-            raise Refuse(f"target {src[:60]}")
-        v = st.value
-        if isinstance(v, ast.Call) and ast.unparse(v.func) == "Gate":
-            if len(v.args) != 1 or not (isinstance(v.args[0], ast.Constant) and isinstance(v.args[0].value, str)):
-                raise Refuse(f"Gate positional arguments {src[:80]}")
-            kw = {k.arg: k.value for k in v.keywords}
-            if set(kw) - {"targets", "arg_value", "arg_label"} or "targets" not in kw:
-                raise Refuse(f"Gate keywords {sorted(kw)}")
-            t = kw["targets"]
-            if not (isinstance(t, ast.List) and all(isinstance(e, ast.Constant) and isinstance(e.value, int) and e.value >= 0 for e in t.elts)):
-                raise Refuse("targets")
-            arg = ex(kw["arg_value"], env) if "arg_value" in kw else None
-            gates[tgt.id] = (v.args[0].value, [e.value for e in t.elts], arg)
-            continue
-        if tgt.id in gates:
-            raise Refuse(f"gate name {tgt.id} re-bound")
-        env[tgt.id] = "(" + ex(v, env) + ")"
-    if not checked:
-        raise Refuse("check_gate call missing")
+            if isinstance(tgt, ast.Tuple) and all(isinstance(e, ast.Name) for e in tgt.elts):
+                if isinstance(st.value, ast.Tuple) and len(st.value.elts) == len(tgt.elts):
+                    vals = [tree(v, env) for v in st.value.elts]
+                else:
+                    v = tree(st.value, env)
+                    if v != ANGLES or len(tgt.elts) != 4:
+                        raise Refuse(f"tuple assignment {ast.unparse(st)[:80]}")
+                    vals = [("idx", v, j) for j in range(4)]
+                for e, v in zip(tgt.elts, vals):
+                    env[e.id] = v
+                continue
+        raise Refuse(f"statement {ast.unparse(st)[:70]}")
     if ret is None:
         raise Refuse("no return")
     return ret
+
+
+def _arg_name(fd):
+    a = fd.args
+    if len(a.args) != 1 or a.vararg or a.kwarg or a.kwonlyargs or a.posonlyargs or a.defaults:
+        raise Refuse("signature")
+    return a.args[0].arg
+
+
+def _no_scoping_tricks(fd):
+    for n in ast.walk(fd):
+        if isinstance(n, (ast.Global, ast.Nonlocal, ast.FunctionDef, ast.Lambda, ast.ClassDef, ast.NamedExpr)) and n is not fd:
+            raise Refuse(f"{type(n).__name__} inside {fd.name}")
+
+
+def prim_trees(fd, consts):
+    """4-tuple of trees returned by a function shaped like REF"""
+    _no_scoping_tricks(fd)
+    env = dict(consts)
+    env[_arg_name(fd)] = ARG
+    ret = run_assignments(flatten(strip_doc(fd.body)), env)
+    if not isinstance(ret.value, ast.Tuple) or len(ret.value.elts) != 4:
+        raise Refuse("return is not a 4-tuple")
+    return [tree(e, env) for e in ret.value.elts]
+
+
+def tr_angles(fd, consts):
+    ref = ast.parse(REF).body[0]
+    prims = {t: f"Var {j}" for j, t in enumerate(prim_trees(ref, {}))}
+    return [to_ex(t, prims) for t in prim_trees(fd, consts)]
+
+
+def tr_method(fd, consts):
+    """-> list of (name, targets, arg ex or None)"""
+    _no_scoping_tricks(fd)
+    env = dict(consts)
+    env[_arg_name(fd)] = ARG
+    gates = {}
+    prims = {("idx", ANGLES, j): f"Var {j}" for j in range(4)}
+    state = {"checked": False}
+
+    def gate_assign(name, value, env_):
+        if isinstance(value, ast.Call) and ast.unparse(value.func) == "Gate" and "Gate" not in env_:
+            kw = {k.arg: k.value for k in value.keywords}
+            if None in kw:
+                raise Refuse("**kwargs in Gate(...)")
+            args = list(value.args)
+            if args and "name" not in kw:
+                kw["name"] = args.pop(0)
+            if args or set(kw) - {"name", "targets", "arg_value", "arg_label"} or "name" not in kw or "targets" not in kw:
+                raise Refuse(f"Gate arguments {ast.unparse(value)[:80]}")
+            if not (isinstance(kw["name"], ast.Constant) and isinstance(kw["name"].value, str)):
+                raise Refuse("Gate name is not a string literal")
+            t = kw["targets"]
+            if not (isinstance(t, ast.List) and all(isinstance(e, ast.Constant) and isinstance(e.value, int) and not isinstance(e.value, bool) and e.value >= 0 for e in t.elts)):
+                raise Refuse("targets")
+            arg = to_ex(tree(kw["arg_value"], env_), prims) if "arg_value" in kw else None
+            gates[name] = (kw["name"].value, [e.value for e in t.elts], arg)
+            env_.pop(name, None)
+            return True
+        if name in gates:
+            if isinstance(value, ast.Name) and value.id in gates:
+                gates[name] = gates[value.id]
+                return True
+            raise Refuse(f"gate name {name} re-bound")
+        if isinstance(value, ast.Name) and value.id in gates:
+            gates[name] = gates[value.id]
+            return True
+        return False
+
+    stmts = []
+    for st in flatten(strip_doc(fd.body)):
+        if isinstance(st, ast.Expr):
+            if ast.unparse(st) == f"check_gate({_arg_name(fd)}, num_qubits=1)":
+                state["checked"] = True
+                continue
+            raise Refuse(f"expression statement {ast.unparse(st)[:60]}")
+        stmts.append(st)
+    ret = run_assignments(stmts, env, gate_assign)
+    if not isinstance(ret.value, ast.Tuple) or not all(isinstance(e, ast.Name) for e in ret.value.elts):
+        raise Refuse("return is not a tuple of names")
+    try:
+        out = [gates[e.id] for e in ret.value.elts]
+    except KeyError as e:
+        raise Refuse(f"returned name {e} is not a Gate")
+    if not state["checked"]:
+        raise Refuse("check_gate call missing")
+    return out
+
+
+def module_constants(tree_):
+    """module-level `NAME = pure arithmetic over numbers and np.pi`, assigned exactly once and never declared global"""
+    for n in ast.walk(tree_):
+        if isinstance(n, (ast.Global, ast.Nonlocal)):
+            raise Refuse("global/nonlocal statement")
+    counts = {}
+    for n in ast.walk(tree_):
+        if isinstance(n, (ast.Assign, ast.AugAssign, ast.AnnAssign)):
+            tg = n.targets if isinstance(n, ast.Assign) else [n.target]
+            for t in tg:
+                for m in ast.walk(t):
+                    if isinstance(m, ast.Name):
+                        counts[m.id] = counts.get(m.id, 0) + 1
+    consts = {}
+    for n in tree_.body:
+        if isinstance(n, ast.Assign) and len(n.targets) == 1 and isinstance(n.targets[0], ast.Name):
+            name = n.targets[0].id
+            try:
+                t = tree(n.value, consts)
+                to_ex(t, {})
+            except Refuse:
+                continue
+            if counts.get(name, 0) == 1:
+                consts[name] = t
+    return consts
 
 
 def coq_gate(g):
@@ -214,12 +343,21 @@ def coq_gate(g):
 def generate():
     path = os.path.join(PKG, SRC_FILE)
     try:
-        tree = ast.parse(open(path).read())
+        mod = ast.parse(open(path).read())
     except (OSError, SyntaxError) as e:
         raise Broken("translator:" + SRC_FILE, repr(e))
-    fds = {n.name: n for n in tree.body if isinstance(n, ast.FunctionDef)}
+    fds = {}
+    for n in mod.body:
+        if isinstance(n, ast.FunctionDef):
+            if n.name in fds:
+                raise Broken("translator:" + SRC_FILE + ":" + n.name, "defined twice")
+            fds[n.name] = n
+    try:
+        consts = module_constants(mod)
+    except Refuse as e:
+        raise Broken("translator:" + SRC_FILE, str(e))
     table = None
-    for n in tree.body:
+    for n in mod.body:
         if isinstance(n, ast.Assign) and ast.unparse(n.targets[0]) == "_single_decompositions_dictionary":
             if not (isinstance(n.value, ast.Dict) and all(isinstance(k, ast.Constant) and isinstance(k.value, str) for k in n.value.keys)
                     and all(isinstance(v, ast.Name) for v in n.value.values)):
@@ -231,7 +369,7 @@ def generate():
     try:
         if "_angles_for_ZYZ" not in fds:
             raise Refuse("function missing")
-        out["angles"] = tr_angles(fds["_angles_for_ZYZ"])
+        out["angles"] = tr_angles(fds["_angles_for_ZYZ"], consts)
     except Refuse as e:
         raise Broken("translator:" + SRC_FILE + ":_angles_for_ZYZ", str(e))
     out["methods"] = []
@@ -239,7 +377,7 @@ def generate():
         try:
             if fname not in fds:
                 raise Refuse("function missing")
-            out["methods"].append((key, fname, tr_method(fds[fname])))
+            out["methods"].append((key, fname, tr_method(fds[fname], consts)))
         except Refuse as e:
             raise Broken("translator:" + SRC_FILE + ":" + fname, str(e))
     lines = ["(* GENERATED by tools/translate/c17_tr.py from decompose/decompose_single_qubit_gate.py - do not edit *)",
@@ -251,7 +389,7 @@ def generate():
     lines.append("Definition sq_methods : list (string * list sgen) := ["
                  + "; ".join(f'("{key}", sq_{key.lower()})' for key, _, _ in out["methods"]) + "].")
     text = "\n".join(lines) + "\n"
-    write_if_changed(os.path.join(COQ, "Gen", "SingleQubit.v"), text)
+    write_if_changed(os.path.join(common.COQ, "Gen", "SingleQubit.v"), text)
     return out
 
 
